@@ -37,7 +37,7 @@ use crate::ocfl::{
 };
 
 static OBJECT_ID_MATCHER: Lazy<RegexMatcher> =
-    Lazy::new(|| RegexMatcher::new(r#""id"\s*:\s*"([^"]+)""#).unwrap());
+    Lazy::new(|| RegexMatcher::new(r#""id"\s*:\s*"((?:[^"\\]|\\.)+)""#).unwrap());
 
 /// Local filesystem OCFL repository
 pub struct FsOcflStore {
@@ -873,7 +873,13 @@ impl InventoryIter {
             UTF8(|_, line| {
                 let mut captures = OBJECT_ID_MATCHER.new_captures()?;
                 OBJECT_ID_MATCHER.captures(line.as_bytes(), &mut captures)?;
-                matches.push(line[captures.get(1).unwrap()].to_string());
+                // The capture is the JSON encoded form of the id; it must be decoded before it
+                // can be compared to an id
+                let encoded = &line[captures.get(1).unwrap()];
+                match serde_json::from_str::<String>(&format!("\"{}\"", encoded)) {
+                    Ok(id) => matches.push(id),
+                    Err(_) => matches.push(encoded.to_string()),
+                }
                 Ok(true)
             }),
         );
